@@ -551,6 +551,19 @@ func (vm *VM) nextCall() bool {
 			// A deferred call is returned. If there is another deferred
 			// call, it will be executed, otherwise the previous call will be
 			// finalized.
+			if call.status == recovered {
+				// The panics raised since the call panicked, including the
+				// recovered one, are no longer in progress.
+				num := 0
+				for p := vm.panic; p != nil; p = p.next {
+					num++
+				}
+				for ; num > call.numPanics; num-- {
+					vm.panic = vm.panic.next
+				}
+				call.status = returned
+				vm.calls[i].status = returned
+			}
 			if i > 0 {
 				prev := vm.calls[i-1]
 				if prev.status == deferred {
@@ -563,31 +576,21 @@ func (vm *VM) nextCall() bool {
 				vm.fp = call.fp
 				vm.finalize(regs)
 			}
-			if call.status == recovered {
-				numPanicked := 0
-				for _, c := range vm.calls {
-					if c.status == panicked {
-						numPanicked++
-					}
-				}
-				num := 0
-				for p := vm.panic; p != nil; p = p.next {
-					num++
-				}
-				for p := vm.panic; num > numPanicked; num-- {
-					p = p.next
-					vm.panic = p
-				}
-			}
 			continue
 		case panicked:
 			// A call is panicked, the first deferred call in the call stack,
 			// if there is one, will be executed.
+			numPanics := call.numPanics
 			for i = i - 1; i >= 0; i-- {
 				call = vm.calls[i]
+				if call.status == panicked || call.status == recovered {
+					// The panics of this call are superseded.
+					numPanics = call.numPanics
+				}
 				if call.status == deferred {
 					vm.calls[i] = vm.calls[i+1]
 					vm.calls[i].status = panicked
+					vm.calls[i].numPanics = numPanics
 					if call.cl.fn != nil {
 						i++
 					}
@@ -888,6 +891,7 @@ type callFrame struct {
 	pc          Addr       // program counter.
 	status      callStatus // status.
 	numVariadic int8       // number of variadic arguments.
+	numPanics   int        // number of panics in progress when the call panicked; only for panicked and recovered status.
 }
 
 type callable struct {
